@@ -23,8 +23,8 @@ var pMinusN = new(big.Int).Sub(ref.P, ref.N)
 // mutate applies one mutation to a valid encoding of p and names it.
 func mutate(t *rapid.T, p ref.Pt, compressed bool) ([]byte, string) {
 	muts := []string{"none", "none", "prefix", "truncate", "extend", "bitflip", "y-neg", "y+1", "y-1", "x+p", "y+p",
-		"x-nonresidue", "hybrid-ok", "hybrid-bad", "zero-padded-identity", "x=p", "swap-format-prefix"}
-	m := rapid.SampledFrom(muts).Draw(t, "mutation")
+		"x-nonresidue", "hybrid-ok", "hybrid-bad", "zero-padded-identity", "x=p", "swap-format-prefix", "near-curve", "near-curve"}
+	m := gen.Sampled(muts).Draw(t, "mutation")
 	// the +p aliases only fit in 32 bytes for tiny coordinates: build such a point
 	switch m {
 	case "x+p":
@@ -37,6 +37,9 @@ func mutate(t *rapid.T, p ref.Pt, compressed bool) ([]byte, string) {
 		out = p.Compressed()
 	}
 	switch m {
+	case "near-curve": // canonical coordinates on y^2 = x^3 + 7 + d, d a hostile small offset
+		x, y, kind := gen.NearCurve(t, "nc")
+		return append(append([]byte{4}, ref.B32(x)...), ref.B32(y)...), "near-curve:" + kind
 	case "prefix":
 		out[0] = rapid.Byte().Draw(t, "prefix")
 	case "truncate":
@@ -98,7 +101,7 @@ func mutate(t *rapid.T, p ref.Pt, compressed bool) ([]byte, string) {
 		}
 		out[0] = 6 + par
 	case "zero-padded-identity":
-		out = make([]byte, rapid.SampledFrom([]int{2, 33, 65}).Draw(t, "zlen"))
+		out = make([]byte, gen.Sampled([]int{2, 33, 65}).Draw(t, "zlen"))
 	case "swap-format-prefix":
 		if p.Inf {
 			return out, "none"
@@ -124,23 +127,23 @@ func propDecode(t *rapid.T) {
 	var src []byte
 	var mut, form string
 	if rapid.IntRange(0, 9).Draw(t, "raw") == 0 {
-		n := rapid.SampledFrom([]int{0, 1, 2, 32, 33, 34, 64, 65, 66}).Draw(t, "rawlen")
+		n := gen.Sampled([]int{0, 1, 2, 32, 33, 34, 64, 65, 66}).Draw(t, "rawlen")
 		if rapid.Bool().Draw(t, "anylen") {
 			n = rapid.IntRange(0, 66).Draw(t, "rawlen2")
 		}
 		src = gen.Bytes(t, n, n, "rawbytes")
 		if n > 0 && rapid.Bool().Draw(t, "goodprefix") {
-			src[0] = rapid.SampledFrom([]byte{0, 2, 3, 4, 6, 7}).Draw(t, "pfx")
+			src[0] = gen.Sampled([]byte{0, 2, 3, 4, 6, 7}).Draw(t, "pfx")
 		}
 		mut, form = "raw", "raw"
 	} else {
 		pc := gen.Point(t, "pt")
-		form = rapid.SampledFrom([]string{"compressed", "uncompressed"}).Draw(t, "form")
+		form = gen.Sampled([]string{"compressed", "uncompressed"}).Draw(t, "form")
 		src, mut = mutate(t, pc.P, form == "compressed")
 		form += "/" + pc.Desc
 	}
 	orig := append([]byte(nil), src...)
-	entry := rapid.SampledFrom([]string{"SetBytes", "SetCompressedBytes", "SetUncompressedBytes", "NewPointFromBytes"}).Draw(t, "entry")
+	entry := gen.Sampled([]string{"SetBytes", "SetCompressedBytes", "SetUncompressedBytes", "NewPointFromBytes"}).Draw(t, "entry")
 	rk := rcvKind(rapid.IntRange(0, 2).Draw(t, "rcv"))
 
 	want, ok := ref.DecodePoint(src)
@@ -291,7 +294,7 @@ func TestC06_Encode(t *testing.T) { rapid.Check(t, propEncode) }
 
 func propCoords(t *rapid.T) {
 	pc := gen.NonIdentityPoint(t, "pt")
-	mut := rapid.SampledFrom([]string{"none", "none", "y-neg", "y+1", "x+1", "x+p", "y+p", "x=p+", "y=p+", "swap", "zero", "raw"}).Draw(t, "mut")
+	mut := gen.Sampled([]string{"none", "none", "y-neg", "y+1", "x+1", "x+p", "y+p", "x=p+", "y=p+", "swap", "zero", "raw", "near-curve", "near-curve"}).Draw(t, "mut")
 	switch mut {
 	case "x+p":
 		pc = gen.SmallXPoint(t, "sx")
@@ -328,6 +331,10 @@ func propCoords(t *rapid.T) {
 		x, y = big.NewInt(0), big.NewInt(0)
 	case "raw":
 		x, y = gen.Raw256(t, ref.P, "rx"), gen.Raw256(t, ref.P, "ry")
+	case "near-curve":
+		var kind string
+		x, y, kind = gen.NearCurve(t, "nc")
+		mut += ":" + kind
 	}
 	ok := ref.OnCurve(x, y)
 	acc := "reject"
@@ -356,7 +363,7 @@ func TestC06_Coords(t *testing.T) { rapid.Check(t, propCoords) }
 // smallRClass finds r < 2^16-ish in a requested class of
 // (r is an abscissa) x (r+n is an abscissa).
 func propRecoverPoint(t *rapid.T) {
-	src := rapid.SampledFrom([]string{"x-of-point", "small-r", "r>=p-n", "r<p-n", "raw"}).Draw(t, "rsrc")
+	src := gen.Sampled([]string{"x-of-point", "small-r", "r>=p-n", "r<p-n", "raw"}).Draw(t, "rsrc")
 	var r *big.Int
 	switch src {
 	case "x-of-point":
